@@ -109,3 +109,4 @@ Eval vm_compute in "ASSUMPTIONS c01_routes". Print Assumptions c01_routes.
 Eval vm_compute in "ASSUMPTIONS c01_decode_is_typed_decode". Print Assumptions c01_decode_is_typed_decode.
 Eval vm_compute in "ASSUMPTIONS c01_request_faithful". Print Assumptions c01_request_faithful.
 Eval vm_compute in "ASSUMPTIONS c01_generated_request_faithful". Print Assumptions c01_generated_request_faithful.
+Eval vm_compute in "ASSUMPTIONS c01_spec_declarations_wellformed". Print Assumptions c01_spec_declarations_wellformed.
